@@ -52,6 +52,12 @@ impl<'a> It<'a> {
             It::Tl(i) => i.next(),
         }
     }
+    fn nth(&mut self, n: usize) -> Option<f64> {
+        match self {
+            It::De(i) => i.nth(n),
+            It::Tl(i) => i.nth(n),
+        }
+    }
     fn next_back(&mut self) -> Option<f64> {
         match self {
             It::De(i) => i.next_back(),
@@ -440,10 +446,27 @@ fn observe(c: &dyn Cont, xs: &Vec<f64>, ys: &Vec<f64>, plan: &Plan, sched: &[u8]
     // 2. the consumption schedule
     let nops = plan.ops.len();
     let mut toks = vec![];
+    // true number of items (plain safe iteration), needed to know when a schedule is exhausted
+    let total = match build(c, xs, ys, plan, nops, &arena) {
+        Ok(mut it) => match drain(&mut it) { Ok(v) => v.len(), Err(_) => usize::MAX },
+        Err(e) => return format!("{};[]", e),
+    };
     'outer: for k in 0..=sched.len() {
+        // `F` = next, `B` = next_back, `N` = nth(1): two items from the front, or all that is left
+        // (an overshooting `nth` returns None and must leave an exact, i.e. zero, hint behind)
         let advance = |it: &mut It| -> bool {
+            let mut used = 0usize;
             for s in &sched[..k] {
+                if used >= total {
+                    return false;
+                }
+                if *s == b'N' {
+                    let _ = it.nth(1);
+                    used += 2usize.min(total - used);
+                    continue;
+                }
                 let got = if *s == b'F' { it.next() } else { it.next_back() };
+                used += 1;
                 if got.is_none() {
                     return false;
                 }
@@ -549,7 +572,7 @@ pub fn valid_case(r: &Req) -> bool {
         return false;
     }
     let sched = r.s("sched");
-    if sched.is_empty() || !(sched == "-" || sched.bytes().all(|c| c == b'F' || c == b'B')) {
+    if sched.is_empty() || !(sched == "-" || sched.bytes().all(|c| c == b'F' || c == b'B' || c == b'N')) {
         return false;
     }
     if !ops.is_empty() && sched.contains('B') {
@@ -619,6 +642,9 @@ fn scheds(len: usize) -> Vec<String> {
     v.push((0..n).map(|i| if i % 2 == 0 { 'F' } else { 'B' }).collect());
     v.push((0..n).map(|i| if i % 2 == 0 { 'B' } else { 'F' }).collect());
     v.push((0..n).map(|i| if i % 3 == 2 { 'F' } else { 'B' }).collect());
+    // nth(1) steps: skipping consumption, incl. one that overshoots what is left
+    v.push("N".repeat(n / 2 + 1));
+    v.push(format!("F{}", "N".repeat(n / 2 + 1)));
     v.sort();
     v.dedup();
     v
@@ -822,7 +848,7 @@ pub fn generate(tier: &str, rng: &mut Rng) -> (Vec<String>, bool) {
 
 pub fn rule(tier: &str) -> String {
     let (maxlen, nr) = if tier == "thorough" { (8, 200_000) } else { (6, 10_000) };
-    format!("exhaustive: (1) container iterators (titer, TIter::map, iter_cast, to_opt_iter) of 10 backends, chain/zip of two containers, Vec1Create::linspace / range (a,b in -2..=4, step in -2..=3), repeat_n, each under 10 stacks of rev/map/to_trust/next/next_back, len 0..={maxlen}, consumed by 5 schedules (front, back, alternating FB/BF, BBF) with the hint read and the rest counted after every step; (2) every adaptor (abs vabs enumerate next chain zip ffill bfill fill vclip(5 bound shapes) shift vshift take | vdiff vpct_change varg_partition vpartition winsorize(3 methods, default/explicit) rolling_custom_iter) x n in -len-3..=len+3 + {{i32::MIN,i32::MAX}}, kth in 0..=len+2 x sort x rev, window 1..=len+2, take 0..=len+2, x len 0..={maxlen} x 4 null patterns, container methods on 10 backends; vcut with 0..=5 bins x 0..=5 labels x right x add_bounds; (3) all ordered pairs of adaptors at critical parameters for len 0,1,3,4; then (4) {nr} random pipelines of depth 1..=6 on random sources. Raw collectors (Vec / VecDeque / Array1, returned / caller buffer) run at every observation point whose hint equals the counted remainder. non-trivial = at least 2 observation points.")
+    format!("exhaustive: (1) container iterators (titer, TIter::map, iter_cast, to_opt_iter) of 10 backends, chain/zip of two containers, Vec1Create::linspace / range (a,b in -2..=4, step in -2..=3), repeat_n, each under 10 stacks of rev/map/to_trust/next/next_back, len 0..={maxlen}, consumed by 7 schedules (front, back, alternating FB/BF, BBF, nth(1) steps from either parity incl. an overshooting one) with the hint read and the rest counted after every step; (2) every adaptor (abs vabs enumerate next chain zip ffill bfill fill vclip(5 bound shapes) shift vshift take | vdiff vpct_change varg_partition vpartition winsorize(3 methods, default/explicit) rolling_custom_iter) x n in -len-3..=len+3 + {{i32::MIN,i32::MAX}}, kth in 0..=len+2 x sort x rev, window 1..=len+2, take 0..=len+2, x len 0..={maxlen} x 4 null patterns, container methods on 10 backends; vcut with 0..=5 bins x 0..=5 labels x right x add_bounds; (3) all ordered pairs of adaptors at critical parameters for len 0,1,3,4; then (4) {nr} random pipelines of depth 1..=6 on random sources. Raw collectors (Vec / VecDeque / Array1, returned / caller buffer) run at every observation point whose hint equals the counted remainder. non-trivial = at least 2 observation points.")
 }
 
 pub fn nontrivial(imp: &str) -> bool {
